@@ -1,7 +1,77 @@
 import PydlVerif.Model.JsonUtil
+import PydlVerif.Model.Idl
 open Lean
 namespace PydlVerif.Driver.C14
+open PydlVerif PydlVerif.Idl
 
-def handle (_j : Json) : Except String Json := throw "C14: no model operations yet"
+def resJ {α} (f : α → Json) : Idl.R α → Json
+  | .ok v => Json.mkObj [("ok", f v)]
+  | .error e => Json.mkObj [("err", Json.str e)]
+
+/-- scalar interpretation chosen per request: numbers arrive as float64 bit patterns -/
+structure Codec (α : Type) where
+  dec : Json → Except String α
+  enc : α → Json
+
+def floatCodec : Codec Float := ⟨J.float, J.ofFloat⟩
+def ratCodec : Codec Rat := ⟨fun j => do pure (ratOfBits (← J.bits j)), J.ofRat⟩
+
+def numeric {α : Type} [Scalar α] (c : Codec α) (op : String) (j : Json) : Except String Json := do
+  match op with
+  | "smooth" =>
+    let x ← J.list c.dec (← J.fld j "x")
+    let w ← J.fInt j "w"
+    let t ← J.fBool j "trunc"
+    pure (J.ofList c.enc (smooth x w t))
+  | "median" =>
+    -- several vectors per line: the plain median of each
+    let xs ← J.list (J.list c.dec) (← J.fld j "xs")
+    let even ← J.fBool j "even"
+    pure (J.ofList (fun x => resJ c.enc (medianPlain x even)) xs)
+  | "medrun1" =>
+    let x ← J.list c.dec (← J.fld j "x")
+    let w ← J.fNat j "w"
+    pure (resJ (J.ofList c.enc) (medianRun1 medfilt1 x w))
+  | "medrun2" =>
+    let x ← J.list (J.list c.dec) (← J.fld j "x")
+    let n1 ← J.fNat j "n1"
+    let w ← J.fNat j "w"
+    pure (resJ (J.ofList (J.ofList c.enc)) (medianRun2 medfilt2 x n1 w))
+  | "rebin" =>
+    let shape ← J.fNats j "shape"
+    let x ← J.array c.dec (← J.fld j "x")
+    let d ← J.fNats j "d"
+    let s ← J.fBool j "sample"
+    if x.size != prod shape then throw "rebin: data does not fit the shape"
+    pure (resJ (fun (r : ND α) => Json.mkObj [("shape", J.ofList J.ofNat r.shape), ("x", J.ofArray c.enc r.data)])
+      (rebin ⟨shape, x⟩ d s))
+  | "sample_float" =>
+    -- the pre-fix index rule of rebin(sample=True), for the record of D11
+    let x ← J.list c.dec (← J.fld j "x")
+    let d ← J.fNat j "d"
+    pure (J.ofList c.enc (laneExpandSampleFloat x.length d x))
+  | "sum" =>
+    let x ← J.list c.dec (← J.fld j "x")
+    pure (c.enc (npSum x))
+  | _ => throw s!"C14: unknown numeric op {op}"
+
+def handle (j : Json) : Except String Json := do
+  let op ← J.fStr j "op"
+  match op with
+  | "uniq_i" =>
+    let x ← J.fInts j "x"
+    match ← J.fOpt (J.list J.int) j "index" with
+    | none => pure (resJ (J.ofList J.ofInt) (pure (uniq x)))
+    | some ix => pure (resJ (J.ofList J.ofInt) (uniqIndex x ix))
+  | "uniq_f" =>
+    let x ← J.list J.float (← J.fld j "x")
+    match ← J.fOpt (J.list J.int) j "index" with
+    | none => pure (resJ (J.ofList J.ofInt) (pure (uniq x)))
+    | some ix => pure (resJ (J.ofList J.ofInt) (uniqIndex x ix))
+  | _ =>
+    let mode ← (J.fOpt J.str j "mode")
+    match mode with
+    | some "q" => numeric ratCodec op j
+    | _ => numeric floatCodec op j
 
 end PydlVerif.Driver.C14
